@@ -67,7 +67,7 @@ type engine struct{}
 
 func (engine) ID() string { return "C09" }
 func (engine) CoqHeader() string {
-	return "From Eino Require Import Base.Util Model.Isolation Corr.C09.\n"
+	return "From Eino Require Import Base.Util Model.Isolation Model.IsolationEngine Corr.C09.\n"
 }
 func (engine) CoqCaseType() string { return "ccase" }
 
@@ -409,37 +409,32 @@ func (engine) Run(ci any) lib.Result {
 		}
 	}
 
-	// Gallina term: solo table, per-run observations, observed interleaving
-	names := map[string]bool{}
-	for _, evs := range soloEv {
-		for _, n := range evs {
-			names[n] = true
+	// Gallina term: compiled record and calls (modelled kinds), table of distinct
+	// observations, solo / concurrent observations by index, observed interleaving
+	modelled := obj.desc != nil
+	proj := func(evs []string) []string {
+		if modelled {
+			return coreEvents(evs)
 		}
+		return evs
 	}
-	for _, o := range outs {
-		for _, n := range o.rc.eventNames() {
-			names[n] = true
+	tabIdx := map[string]int{}
+	var tab []string
+	intern := func(res string, evs []string) int {
+		k := res + "\x00" + strings.Join(evs, "\x00")
+		if i, ok := tabIdx[k]; ok {
+			return i
 		}
+		tabIdx[k] = len(tab)
+		tab = append(tab, lib.CoqPair(lib.CoqStr(res), lib.CoqStrList(evs)))
+		return len(tab) - 1
 	}
-	sorted := make([]string, 0, len(names))
-	for n := range names {
-		sorted = append(sorted, n)
-	}
-	sort.Strings(sorted)
-	code := map[string]uint64{}
-	for i, n := range sorted {
-		code[n] = uint64(i)
-	}
-	nl := func(evs []string) string {
-		xs := make([]string, len(evs))
-		for i, n := range evs {
-			xs[i] = fmt.Sprint(code[n])
-		}
-		return "[" + strings.Join(xs, ";") + "]%N"
-	}
-	var soloT, runT []string
+	var soloT, runT, callT []string
 	for i := range specs {
-		soloT = append(soloT, lib.CoqApp("TS", nl(soloEv[i]), lib.CoqN(hashStr(soloRes[i]))))
+		soloT = append(soloT, lib.CoqNat(intern(soloRes[i], proj(soloEv[i]))))
+		if modelled {
+			callT = append(callT, obj.mcall(specs[i], i))
+		}
 	}
 	type gev struct {
 		ts  int64
@@ -447,23 +442,35 @@ func (engine) Run(ci any) lib.Result {
 	}
 	var glob []gev
 	for j, o := range outs {
-		runT = append(runT, lib.CoqPair(lib.CoqNat(assign[j]), lib.CoqPair(nl(o.rc.eventNames()), lib.CoqN(hashStr(o.res)))))
+		runT = append(runT, lib.CoqPair(lib.CoqNat(assign[j]), lib.CoqNat(intern(o.res, proj(o.rc.eventNames())))))
 		o.rc.mu.Lock()
 		for _, e := range o.rc.events {
-			glob = append(glob, gev{e.ts, j})
+			if !modelled || coreEvent(e.name) {
+				glob = append(glob, gev{e.ts, j})
+			}
 		}
 		o.rc.mu.Unlock()
 	}
 	sort.SliceStable(glob, func(a, b int) bool { return glob[a].ts < glob[b].ts })
-	sched := make([]string, len(glob))
+	var sched strings.Builder
 	switches := 0
 	for i, e := range glob {
-		sched[i] = fmt.Sprint(e.run)
+		sched.WriteByte(byte('a' + (e.run>>4)&15))
+		sched.WriteByte(byte('a' + e.run&15))
 		if i > 0 && glob[i-1].run != e.run {
 			switches++
 		}
 	}
-	term := lib.CoqApp("CCase", lib.CoqList(soloT), lib.CoqList(runT), "(["+strings.Join(sched, ";")+"]%nat)")
+	objT := "None"
+	if modelled {
+		objT = "(Some (CO " + obj.desc.term() + " " + lib.CoqNat(obj.depth) + "))"
+	}
+	term := lib.CoqApp("CCase", objT, lib.CoqList(callT), lib.CoqList(tab), lib.CoqList(soloT), lib.CoqList(runT), lib.CoqStr(sched.String()))
+	if modelled {
+		tags = append(tags, "model:predicted")
+	} else {
+		tags = append(tags, "model:replay")
+	}
 
 	class := "ok"
 	if oracle != "" {
@@ -555,6 +562,6 @@ func reexecWithRaceExit0() {
 func main() {
 	reexecWithRaceExit0()
 	// a process-wide handler, registered once before anything runs (the documented use)
-	callbacks.AppendGlobalHandlers(sharedHandler("G"))
+	callbacks.AppendGlobalHandlers(sharedHandler("G"), partialHandler("Ge", false))
 	lib.Main(engine{})
 }
